@@ -788,16 +788,38 @@ theorem bpPublic_ne_panic (aTok : List UInt8) (addr : Nat) : bpPublic aTok addr 
   · simp only [ha, orNone, bind_ok]
     exact publicLookup_ne_panic _ _ (bsearch1_ok _ _)
 
+theorem prefixHex32_spec (tok : List UInt8) :
+    prefixHex 32 tok = .err () ∨ ∃ v, prefixHex 32 tok = .ok v ∧ v ≤ u32Max := by
+  unfold prefixHex
+  cases h : hexStr 32 tok with
+  | ok p =>
+    obtain ⟨rest, v⟩ := p
+    right; exact ⟨v, rfl, hexStr32_lt _ _ _ h⟩
+  | err e => left; rfl
+  | panic => exact absurd h (hexStr_ne_panic _ _)
+
+theorem prefixDec_spec (tok : List UInt8) :
+    prefixDec tok = .err () ∨ ∃ v, prefixDec tok = .ok v ∧ v ≤ u32Max := by
+  unfold prefixDec
+  cases h : decimalU32 tok with
+  | ok p =>
+    obtain ⟨rest, v⟩ := p
+    right; exact ⟨v, rfl, decimalU32_le _ _ _ h⟩
+  | err e => left; rfl
+  | panic => exact absurd h (decimalU32_ne_panic _)
+
 theorem bpLine_ne_panic (aTok sTok lTok fTok : List UInt8) (addr : Nat) :
     bpLine aTok sTok lTok fTok addr ≠ .panic := by
   unfold bpLine
+  split
+  · simp
   rcases fullHex64_spec aTok with ha | ⟨a, ha, _⟩
   · simp [ha, orNone]
   · rcases fullHex32_spec sTok with hs | ⟨s, hs, _⟩
     · simp [ha, hs, orNone]
     · rcases fullDec_spec lTok with hl | ⟨l, hl, _⟩
       · simp [ha, hs, hl, orNone]
-      · rcases fullDec_spec fTok with hf | ⟨f, hf, _⟩
+      · rcases prefixDec_spec fTok with hf | ⟨f, hf, _⟩
         · simp [ha, hs, hl, hf, orNone]
         · simp only [ha, hs, hl, hf, bind_ok, pure_eq, orNone]
           have := sourcelocAt_ne_panic (bsearch1 (a % two32) addr) 1 (bsearch1_ok _ _)
@@ -812,11 +834,13 @@ theorem bsearchInl1_ok (inl : Inlinee) (d a : Nat) : BsOk (bsearchInl1 inl d a) 
 theorem bpInline_ne_panic (dTok aTok sTok : List UInt8) (addr : Nat) :
     bpInline dTok aTok sTok addr ≠ .panic := by
   unfold bpInline
+  split
+  · simp
   rcases fullDec_spec dTok with hd | ⟨d, hd, _⟩
   · simp [hd, orNone]
   · rcases fullHex32_spec aTok with ha | ⟨a, ha, _⟩
     · simp [hd, ha, orNone]
-    · rcases fullHex32_spec sTok with hs | ⟨s, hs, _⟩
+    · rcases prefixHex32_spec sTok with hs | ⟨s, hs, _⟩
       · simp [hd, ha, hs, orNone]
       · simp only [hd, ha, hs, bind_ok, pure_eq, orNone]
         have h0 := inlineeAt_ne_panic (bsearchInl1 ⟨d, a, s⟩ 0 addr) [⟨d, a, s⟩] 0 addr (bsearchInl1_ok _ _ _)
